@@ -51,7 +51,8 @@ def main():
     o = ("c10",)
     harness.oracles.ORACLES.update(oracles2.ORACLES)
     # k=0: every shape concretely (chosen through a symbolic index so that the run is sharded and counted uniformly)
-    sample = list(dict.fromkeys(NESTED + (sh[:600] if chk.quick else sh)))
+    from symx import errseeds
+    sample = list(dict.fromkeys(NESTED + [t for t in errseeds.dedent_after() if "f'" in t or 'f"' in t] + (sh[:600] if chk.quick else sh)))
 
     def tf0(ex):
         return sample[harness.choose_index(ex, "shape", len(sample))]
